@@ -16,8 +16,12 @@ from ..common import ToolError
 NEEDS = ["driver"]
 
 
-def target_src(kind, attrs):
+def target_src(kind, attrs, ident="Target"):
     a = "".join(x + "\n" for x in attrs)
+    return _target_src(kind, a).replace("Target", ident)
+
+
+def _target_src(kind, a):
     if kind == "struct":
         return f"#[typeshare]\n{a}pub struct Target {{ pub x: u32 }}\n"
     if kind == "generic_struct":
@@ -44,6 +48,11 @@ def target_src(kind, attrs):
 
 
 def source(case):
+    ident = case.get("ident", "Target")
+    return _source(case).replace("Target", ident) if ident != "Target" else _source(case)
+
+
+def _source(case):
     t = "Target<u32>" if case["kind"] in ("generic_struct", "generic_alias", "generic_enum") else "Target"
     ta = ['#[serde(rename = "TargetRenamed")]'] if case["renamed"] else []
     sa = '#[serde(rename = "SecondRenamed")]\n' if case["second_renamed"] else ""
@@ -134,7 +143,8 @@ def sites(lang, obs, case, prefix):
         for m in ms or []:
             out.append(("vfield" if m["key"] == "f" else "vfield_opt", target_leaf(m["ty"], others), None))
     # inside the target itself: self references, its own helper, the parent of its variants
-    tnames = [pre + "TargetRenamed", pre + "Target", "TargetRenamed", "Target"]
+    ident = case.get("ident", "Target")
+    tnames = [pre + ident + "Renamed", pre + ident, ident + "Renamed", ident]
     t = observe.find_def(obs, *tnames)
     if t:
         if case["kind"] in ("recursive_struct",):
@@ -211,9 +221,14 @@ def run(chk):
     chk.add_tlc("Trace_C09", tres)
     if matched != len(events):
         raise ToolError(f"Trace_C09 consumed {matched}/{len(events)}")
+    def sib_key(lang, case, site):
+        return (lang, site, tuple(sorted((k, str(v)) for k, v in case.items() if k != "ident")))
+    bad_plain = {sib_key(*meta[b - 1][:3]) for b in tres.bad if meta[b - 1][1].get("ident", "Target") == "Target"}
     for b in tres.bad:
         e = events[b - 1]
         lang, case, site, src = meta[b - 1]
+        # the identifier is named in the signature only when it is necessary: the same case with the plain identifier conforms
+        ident_dim = "" if case.get("ident", "Target") == "Target" or sib_key(lang, case, site) in bad_plain else "/ident=" + case["ident"]
         exp = e["prefix"] + (e["target"]["rename"] or e["target"]["ident"])
         defined = exp in e["defs"]
         form = ("original" if e["ref"] == e["target"]["ident"] else "renamed-unprefixed" if e["ref"] == e["target"]["rename"] else
@@ -221,7 +236,7 @@ def run(chk):
         # when the DEFINITION is what is off (absent under the required name) every site shows it: one signature per item kind
         site_dim = site if defined else "anysite"
         where = lang + ("+folder" if case.get("mode") == "folder" else "") + (":" + case["elsewhere"] if case.get("elsewhere", "none") != "none" else "")
-        chk.mismatch(f"C09/{where}/{case['kind'] if not site.startswith('second') else 'struct'}/{site_dim}/{'renamed' if e['target'].get('rename') else 'plain'}/"
+        chk.mismatch(f"C09/{where}{ident_dim}/{case['kind'] if not site.startswith('second') else 'struct'}/{site_dim}/{'renamed' if e['target'].get('rename') else 'plain'}/"
                      f"{'prefix' if e['prefix'] else 'noprefix'}/ref={form}/def={'present' if defined else 'absent'}",
                      f"{lang}: {site} reference to {e['target']} is spelled `{e['ref']}`, definition name required `{exp}`; definitions: {e['defs']}",
                      {"case": case, "lang": lang, "site": site}, exp, e["ref"])
@@ -233,7 +248,8 @@ def run(chk):
 
 def replay(chk, rec):
     c = rec["case"]
-    cases = [{"case": c["case"], "target": {"ident": "Target", "rename": "TargetRenamed" if c["case"]["renamed"] else ""},
+    ident = c["case"].get("ident", "Target")
+    cases = [{"case": c["case"], "target": {"ident": ident, "rename": ident + "Renamed" if c["case"]["renamed"] else ""},
               "second": {"ident": "Second", "rename": "SecondRenamed" if c["case"]["second_renamed"] else ""}}]
     events, meta = run_cases(chk, cases)
     keep = [(e, m) for e, m in zip(events, meta) if m[0] == c["lang"] and m[2] == c["site"]]
